@@ -49,6 +49,22 @@ def _solve_one(args):
         else:
             res["verdict"] = "undecided"
             res["reason"] = s.reason_unknown()
+            # a counterexample with small integers is still a counterexample: retry the same query with every
+            # integer constant confined to a small box (only `sat` is used from this attempt)
+            for bound in (8, 40):
+                m = _small_model(smt2, bound, min(timeout_ms, 10000), drop_quantified=False)
+                if m is not None:
+                    res["verdict"], res["model"], res["backend"] = "refuted", m, res["backend"] + f"+box{bound}"
+                    res["seconds"] = time.time() - t0
+                    return res
+            # last resort: a CANDIDATE counterexample of the quantifier-free part only (the quantified hypotheses -
+            # array-content invariants, definitional axioms - are dropped, so the model may be spurious). It is
+            # never reported by itself: the driver replays it on the real code and keeps `undecided` unless it fails there.
+            for bound in (8, 40):
+                m = _small_model(smt2, bound, min(timeout_ms, 10000), drop_quantified=True)
+                if m is not None:
+                    res["verdict"], res["model"], res["backend"] = "candidate", m, res["backend"] + f"+qfbox{bound}"
+                    break
             for tool, cmd in (("cvc5", ["/usr/bin/cvc5", "--lang=smt2", f"--tlimit={timeout_ms}", "--produce-models"]),
                               ("z3-4.8", ["/usr/bin/z3", "-smt2", f"-T:{max(1, timeout_ms // 1000)}"])):
                 v, out = _external(cmd, smt2, timeout_ms)
@@ -61,6 +77,52 @@ def _solve_one(args):
         return res
     except Exception as e:  # pragma: no cover - checker fault, never a violation
         return {"id": oid, "verdict": "error", "reason": f"{type(e).__name__}: {e}", "seconds": time.time() - t0, "backend": "z3"}
+
+
+def _int_consts(fs):
+    seen, out, stack = set(), {}, list(fs)
+    while stack:
+        x = stack.pop()
+        i = x.get_id()
+        if i in seen:
+            continue
+        seen.add(i)
+        if z3.is_quantifier(x):
+            stack.append(x.body())
+            continue
+        if z3.is_const(x) and x.decl().kind() == z3.Z3_OP_UNINTERPRETED and z3.is_int(x):
+            out[x.decl().name()] = x
+        stack.extend(x.children())
+    return list(out.values())
+
+
+def _has_q(e):
+    stack, seen = [e], set()
+    while stack:
+        x = stack.pop()
+        if x.get_id() in seen:
+            continue
+        seen.add(x.get_id())
+        if z3.is_quantifier(x):
+            return True
+        stack.extend(x.children())
+    return False
+
+
+def _small_model(smt2, bound, timeout_ms, drop_quantified=False):
+    s0 = z3.Solver()
+    s0.from_string(smt2)
+    s = z3.Solver()
+    s.set("timeout", timeout_ms)
+    for a in s0.assertions():
+        if drop_quantified and _has_q(a):
+            continue
+        s.add(a)
+    for c in _int_consts(s.assertions()):
+        s.add(c >= -bound, c <= bound)
+    if s.check() == z3.sat:
+        return _model_dict(s.model())
+    return None
 
 
 def _external(cmd, smt2, timeout_ms):
